@@ -223,9 +223,18 @@ def c03(res: Result):
                            + [[{"op": "scc", "maa": m}] for m in (True, False)] + [[{"op": "build"}]])
     tasks += gadget_tasks("gb", [[{"op": "block", "maa": m, "optsrc": o, "exact": False, "size": -1}] for m in (True, False) for o in (True, False)]
                           + [[{"op": "scc", "maa": m}] for m in (True, False)] + [[{"op": "build"}]])
+    # limited calls that may still report completion: a level-limited BFS prefix followed by a stack-limited DFS from the root and
+    # vice versa (a True of the second call claims the minimal trap spaces are all there)
+    lim = [[{"op": "bfs", "n": 1, "lvl": L, "size": -1}, {"op": "dfs", "n": 1, "stk": K, "size": -1}] for L in (1, 2, 3) for K in (0, 1, 2)] \
+        + [[{"op": "dfs", "n": 1, "stk": K, "size": -1}, {"op": "bfs", "n": 1, "lvl": L, "size": -1}] for L in (1, 2) for K in (1, 2)]
+    tasks += gadget_tasks("gl", lim)
+    tasks += feature_tasks("fl", lim, kinds=["deep", "modules"], max_n=6)
+    for i, tt in enumerate(pool[: N(q, 120, 1500)]):
+        tasks.append({"tid": f"l{i}", "tt": tt, "ops": rng.choice(lim), "meta": "limited prefix + limited strategy from the root"})
     invs = ["Inv_MinExact", "Inv_WF"]
     res.cov["rule"] = ("Random and TLC-generated prefixes of plain expansion calls (with limits) followed by a strategy from the root "
-                       "(BFS, DFS, minimal-space with/without skip_ignored, attractor-seed, skip_remaining), and block / source-SCC / build on "
+                       "(BFS, DFS, minimal-space with/without skip_ignored, attractor-seed, skip_remaining), level-limited BFS + stack-limited DFS "
+                       "pairs from the root (a limited call that returns True claims completion too), and block / source-SCC / build on "
                        "fresh diagrams with all option combinations; TLC computes the inclusion-minimal trap spaces from the truth tables and "
                        "compares with the diagram's minimal nodes (none missing, spurious or duplicated). Non-trivial: distinct cases with >= 2 minimal trap spaces.")
 
@@ -705,11 +714,20 @@ def c09(res: Result):
     run_theorems(res, ["T_Rev", "T_Succ", "T_MinTrap"])
     tasks = pure_tasks(rng, q, ["trappist", "reduced"] + ([] if q else ["trappist_grid"]), 12 if q else 60,
                        [3, 3, 4, 4, 5] if q else [3, 4, 5, 5, 6], N(q, 400, 4000))
+    # the solver on nets derived from a shared parent net (restrict_petrinet_to_subspace after earlier solver calls on the parent)
+    for i, tt in enumerate(gen.network_pool(rng, N(q, 300, 3000), [3, 3, 4, 4, 5])):
+        tasks.append({"tid": f"d{i}", "tt": tt, "seed": rng.randrange(1 << 30), "kinds": [], "per_kind": 6, "restricted": True})
+    for name, tt in gen.gadget_networks().items():
+        if len(tt) <= 6:
+            for j in range(3):
+                tasks.append({"tid": f"dg{name}_{j}", "tt": tt, "seed": rng.randrange(1 << 30), "kinds": [], "per_kind": 6, "restricted": True})
     res.cov["rule"] = ("trappist (min / max / fix, both time directions, enclosing subspace, 0-3 avoided subspaces, source-variable lists "
                        "auto/none/explicit, solution limits none/0/1/2/3, Petri-net or network input) and compute_fixed_point_reduced_STG "
                        "(random retained sets, enclosing and avoided subspaces incl. the empty one, limits) on all 256 two-variable networks (thorough: "
                        "plus the full grid enclosing subspace x single avoided subspace x problem x direction, and retained set x enclosing subspace) and "
-                       "random 3-6 variable networks; TLC computes the requested set from the enumerated trap spaces of the network / its time "
+                       "random 3-6 variable networks; the same solver calls on nets obtained by restricting a shared, already used parent net to a random "
+                       "subspace (judged against the network whose fixed variables are constants: sources that appear or disappear through the restriction); "
+                       "TLC computes the requested set from the enumerated trap spaces of the network / its time "
                        "reversal and compares (exact set without limit; duplicate-free subset of size min(count, limit) with limit). "
                        "Non-trivial: distinct calls whose result has >= 2 elements or that use avoid / reverse time / limits.")
     run_pure(res, tasks, ["Inv_TRAPPIST", "Inv_REDUCED"], "solver",
@@ -747,6 +765,13 @@ def run_models(res: Result, q: bool, rng, invariants):
     wd = os.path.join(sdcheck.WORK, res.pid, "models")
     shutil.rmtree(wd, ignore_errors=True)
     os.makedirs(wd)
+    # synthetic models with large update functions (decision diagrams with big shared sub-diagrams): the implicant cover of
+    # such functions takes code paths the small functions never reach
+    for j, text in enumerate(gen.big_function_models(rng, N(q, 12, 60), 14)):
+        path = os.path.join(wd, f"b{j:02d}.bnet")      # (trace ids use the first three characters of the file name)
+        open(path, "w").write(text)
+        tasks.append({"path": path, "seed": rng.randrange(1 << 30), "max_local": 14, "subspaces": 1 if q else 2})
+        files.append(path)
     tf = os.path.join(wd, "traces.ndjson")
     info = pure.record_models(tasks, tf)
     out = tlc.validate_traces(tf, "PureTrace", invariants + ["Inv_RAISED", "Inv_UNKNOWN"], wd)
@@ -789,7 +814,7 @@ def c11(res: Result):
     res.cov["rule"] = ("percolate_space, percolate_space_strict, percolation_conflicts, find_single_node_LDOIs and find_single_drivers on every "
                        "subspace (trap space or not, consistent or conflicting) of all two-variable networks and gadgets, and random subspaces of "
                        "random 3-6 variable networks; TLC computes the least fixed point of value propagation (given values kept) from the truth "
-                       "tables and compares; idempotence and trap preservation are checked on every result and as theorems on all subspaces of "
+                       "tables and compares (driver queries also with a shared, pre-computed LDOI table, which must still be the LDOI table afterwards); idempotence and trap preservation are checked on every result and as theorems on all subspaces of "
                        "all two-variable networks. Non-trivial: distinct calls where propagation fixes at least one further variable or the space conflicts.")
     run_pure(res, tasks, ["Inv_PERC", "Inv_PERCLAW", "Inv_STRICT", "Inv_CONFLICTS", "Inv_LDOI", "Inv_DRIVERS"], "perc",
              lambda e: (e["k"] in ("perc", "strict") and sum(1 for x in e["res1"] if x != 2) > 0 and e["res1"] != e["sp"]) or bool(e["res2"]) or e["k"] in ("ldoi",))
@@ -815,7 +840,7 @@ def run_control(res: Result, tasks, invariants, label, nontrivial_event):
     for tr in traces.values():
         for e in tr["events"]:
             res.cov["evaluations"] += 1
-            key = json.dumps([tr["net"]["f"], e["target"], e["strategy"], e["bound"], e["forbidden"], e["sonly"], e["skipff"], e["hist"]])
+            key = json.dumps([tr["net"]["f"], e["target"], e["strategy"], e["bound"], e["forbidden"], e["sonly"], e["skipff"], e["hist"], e.get("maxm", 0)])
             if key not in seen:
                 seen.add(key)
                 if nontrivial_event(e):
@@ -836,6 +861,42 @@ def run_control(res: Result, tasks, invariants, label, nontrivial_event):
                    "failing": [{"invariant": i, "event": l, "call": tr["events"][l - 1]} for (i, l, o) in vs],
                    "net": tr["net"]}, open(os.path.join(vd, "verdict.json"), "w"), indent=1)
         res.violations.append(vd)
+
+
+def run_control_theorems(res: Result, invariants: list[str], mutations: dict[str, list[str]]):
+    """
+    MC_Control.tla: the control design (Control.tla, the operators ControlTrace compares the library with) is sound and
+    complete for every network of the family and every query; `mutations` (definition overrides -> invariants that must
+    then fail) show the theorems are not vacuous.
+    """
+    q = res.tier == Q
+    runs = [("all2", "BoundsFull", 1, None, [])]
+    runs.append(("file", "BoundsQuick" if q else "BoundsFull", 0 if q else 1, "catalogue.ndjson", []))
+    for mut, must in mutations.items():
+        runs.append(("all2", "BoundsQuick", 0, None, [mut] + must))
+    for k, (netmode, bounds, maxforb, cat, mut) in enumerate(runs):
+        wd = os.path.join(sdcheck.WORK, res.pid, f"ctl_theorems_{k}")
+        shutil.rmtree(wd, ignore_errors=True)
+        os.makedirs(wd)
+        cfg = os.path.join(wd, "mc.cfg")
+        tlc.write_cfg(cfg, invariants=invariants, constants={"NetMode": f'"{netmode}"', "Bounds <- " + bounds: None, "MaxForb": maxforb,
+                                                             **({mut[0] + " <- MutFalse": None} if mut else {})})
+        env = {"CATALOGUE": os.path.join(tlc.SPEC_DIR, cat)} if cat else {}
+        r = tlc.model_check("MC_Control", cfg, wd, env=env, extra=["-continue"] if mut else [])
+        res.cov["states"] += r["distinct"]
+        res.cov["transitions"] += r["generated"]
+        entry = {"name": "control_theorems", "nets": cat or netmode, "bounds": bounds, "forbidden_subsets_of": maxforb,
+                 "invariants": invariants, "distinct_states": r["distinct"], "ok": r["ok"], "wall_s": round(r["wall_s"], 1)}
+        if mut:
+            entry["mutation"] = mut[0] + " <- FALSE"
+            entry["violated_as_required"] = sorted(set(r["violated"]))
+            entry["ok"] = bool(set(mut[1:]) & set(r["violated"]))      # for a mutation run: the mutation was refuted
+            if not set(mut[1:]) & set(r["violated"]):
+                raise tlc.TLCFailure(f"mutation {mut[0]} of the control design is not detected by {mut[1:]}: the theorem would be vacuous")
+        elif not r["ok"]:
+            for inv in r["violated"]:
+                res.violations.append(f"{r['log']}#model:{inv}")
+        res.cov["mc_runs"].append(entry)
 
 
 def control_tasks(rng, q, with_history, count, sizes, calls):
@@ -859,10 +920,12 @@ def c06(res: Result):
     tasks = control_tasks(rng, q, True, N(q, 300, 4000), [3, 3, 4, 4] if q else [3, 4, 4, 5], 6 if q else 12)
     res.cov["rule"] = ("succession_control on fresh diagrams and on diagrams already partially expanded / skipped / shortcut by random "
                        "strategies, random non-empty targets (trap spaces or not), both strategies, driver bounds none/0/1/2/N, forbidden sets, "
+                       "one call in six under max_motifs_per_node 1..4 (the library refuses with RuntimeError or answers as without the limit), "
                        "skip_feedforward on/off. For every intervention reported successful TLC recomputes: the cumulative spaces are nested trap "
                        "spaces, each listed override's LDOI contains the step's motif, and in the overridden network every attractor reachable "
                        "from the previous trap space has the motif's values; the last space meets the target and all minimal trap spaces inside "
                        "it are inside the target. Non-trivial: distinct calls that return at least one successful intervention with >= 1 step.")
+    run_control_theorems(res, ["T_C06", "T_Reach"], {"HotFull": ["T_C06"], "DriverContains": ["T_C06"]})
     run_control(res, tasks, ["Inv_C06", "Inv_FLAG"], "forces", lambda e: any(x["ok"] and x["succ"] for x in e["res"]))
 
 
@@ -876,6 +939,7 @@ def c07(res: Result):
                        "driver variable sets (every forcing valuation) within bound and outside the forbidden set; the returned list must equal it "
                        "as a set, with each succession once and the unsuccessful flag exactly when a step has no override. "
                        "Non-trivial: distinct calls whose expected answer has at least one non-empty succession.")
+    run_control_theorems(res, ["T_Reach", "T_Cover", "T_Min", "T_Internal"], {"HotFull": ["T_Reach", "T_Cover"]})
     run_control(res, tasks, ["Inv_C07", "Inv_FLAG"], "exact", lambda e: any(x["succ"] for x in e["res"]))
 
 
